@@ -83,6 +83,22 @@ Fixpoint mapM {A B} (f : A -> res B) (l : list A) : res (list B) :=
 Definition rot_n (k : Z) (i1 i2 : nat) (ns : list Z) : list Z :=
   if Z.odd k then swap_nth 0%Z i1 i2 ns else ns.
 
+(* periodicity turns with the cells: for odd k the letters of bc naming the two in-plane axes are
+   exchanged  ("".join({ax1: ax2, ax2: ax1}.get(char, char) for char in bc));  'neumann' and
+   'dirichlet' name no axis and are kept *)
+Fixpoint bc_swap (a b : string) (s : string) : string :=
+  match s with
+  | EmptyString => EmptyString
+  | String ch t =>
+      let c := String ch EmptyString in
+      append (if String.eqb c a then b else if String.eqb c b then a else c) (bc_swap a b t)
+  end.
+
+Definition bc_keyword (s : string) : bool := String.eqb s "neumann" || String.eqb s "dirichlet".
+
+Definition rot_bc (k : Z) (a b : string) (s : string) : string :=
+  if Z.odd k then (if bc_keyword s then s else bc_swap a b s) else s.
+
 (* The copying form re-enters Mesh(region=, n=, bc=, subregions=); its subregion validation
    (C14) accepts the rotated subregions of valid subregions and is not repeated here. *)
 Definition mesh_rotate90 (inplace : bool) (m : mesh) (a b : string) (k : Z)
@@ -90,15 +106,15 @@ Definition mesh_rotate90 (inplace : bool) (m : mesh) (a b : string) (k : Z)
   do r' <- region_rotate90 inplace (reg m) a b k ref;
   do i1 <- dim2index (reg m) a;
   do i2 <- dim2index (reg m) b;
-  (* reference_point None: the copying form reads the centre of the untouched region, the
-     in-place form reads it after the region has been rotated in place *)
+  (* reference_point None: region and subregions turn about the centre of the mesh as it is
+     before the turn, in both forms *)
   let R := match ref with
            | Some p => p
-           | None => center (if inplace then r' else reg m)
+           | None => center (reg m)
            end in
   do subs' <- mapM (fun ns => do s' <- region_rotate90 inplace (snd ns) a b k (Some R);
                               OK (fst ns, s')) (subs m);
-  OK (mkMesh r' (rot_n k i1 i2 (n m)) (bc m) subs').
+  OK (mkMesh r' (rot_n k i1 i2 (n m)) (rot_bc k a b (bc m)) subs').
 
 (* ---------- numpy.rot90 as an index map ---------- *)
 Definition flip_ax {V} (sh : list nat) (ax : nat) (f : idx -> V) : idx -> V :=
